@@ -23,7 +23,7 @@ V_ASSIGNS(g, g_mod->tb.tokens, g_mod->batch.events, g_batchq->len, g_batchq->fir
  * (timer) event is released, never handed to the user */
 V_ENSURES(g.enq_calls == V_OLD(g.enq_calls) + (V_PUSH_INTERNAL ? 0 : 1)
           && V_IMP(!V_PUSH_INTERNAL, __CPROVER_pointer_equals(g.enq_arg, (void *)g_evt) && __CPROVER_pointer_equals(g.enq_q, g_batchq))
-          && g.unref_calls == V_OLD(g.unref_calls) + (V_PUSH_INTERNAL ? 1 : 0) && V_IMP(V_PUSH_INTERNAL, __CPROVER_pointer_equals(g.unref_arg, (void *)g_evt)))      /*@C13.no-loss-no-duplication*/
+          && g.unref_calls == V_OLD(g.unref_calls) + (V_PUSH_INTERNAL ? 1 : 0) && V_IMP(V_PUSH_INTERNAL, __CPROVER_pointer_equals(g.unref_arg, (void *)g_evt)))      /*@C13.no-loss-no-duplication*/ /*@C08.every-event-joins-the-tail-of-the-accumulation-queue*/
 /* the handler runs exactly when: high priority, or batch timeout expired (internal timer keyed by &mod->batch), or a
  * normal-priority event brings the accumulated count to the configured batch size; never for a low-priority event by itself;
  * never with nothing accumulated */
@@ -33,7 +33,7 @@ V_ENSURES(g.cb_calls == V_OLD(g.cb_calls) +
                 || (V_OLD(g_batchq->len) + (V_PUSH_INTERNAL ? 0 : 1)) >= g_mod->batch.len)) ? 1 : 0))                                       /*@C13.handler-invoked-exactly-when*/
 /* ... with exactly the accumulated events (the same queue object, in arrival order), and a fresh empty queue takes its place */
 V_ENSURES(V_IMP(g.cb_calls > V_OLD(g.cb_calls), __CPROVER_pointer_equals(g.cb_mod, g_mod) && __CPROVER_pointer_equals(g.cb_q, g_batchq) && g.cb_qlen == V_OLD(g_batchq->len) + (V_PUSH_INTERNAL ? 0 : 1)
-                && g_mod->batch.events == g.qnew_ret && g.qnew_calls == V_OLD(g.qnew_calls) + 1 && g_mod->batch.events != g_batchq))          /*@C13.handler-gets-the-accumulated-events*/
+                && g_mod->batch.events == g.qnew_ret && g.qnew_calls == V_OLD(g.qnew_calls) + 1 && g_mod->batch.events != g_batchq))          /*@C13.handler-gets-the-accumulated-events*/ /*@C08.handler-gets-the-whole-queue-older-events-first*/
 V_ENSURES(V_IMP(g.cb_calls == V_OLD(g.cb_calls), g_mod->batch.events == g_batchq && g.qnew_calls == V_OLD(g.qnew_calls)))                    /*@C13.events-stay-accumulated-otherwise*/
 /* token bucket refill: one token per tick of the internal refill timer, capped at burst; nothing else touches the bucket */
 V_ENSURES(g_mod->tb.tokens == ((V_PUSH_INTERNAL && g_src->userptr == (void *)&g_mod->tb && V_OLD(g_mod->tb.tokens) < g_mod->tb.burst)
